@@ -235,7 +235,14 @@ pub struct Pgcat {
     pub stderr_path: PathBuf,
 }
 
+/// Serialises the moments at which this process holds a throw-away listener (port_free) with the moments at which any worker
+/// thread forks a child: a child forked while another worker's probe listener is open keeps a copy of that listener until it
+/// execs, and the other worker's "is pgcat listening yet?" probe then connects to that ghost instead of to its own pgcat
+/// (seen under CPU load as ConnectionReset / Connection refused on the first login, and as "invalid configuration accepted").
+pub static SPAWN_LOCK: std::sync::Mutex<()> = std::sync::Mutex::new(());
+
 fn port_free(port: u16) -> bool {
+    let _g = SPAWN_LOCK.lock().unwrap_or_else(|e| e.into_inner());
     std::net::TcpListener::bind(("127.0.0.1", port)).is_ok()
 }
 
@@ -259,6 +266,35 @@ impl PortAlloc {
         }
         panic!("no free port in worker range");
     }
+}
+
+/// Does process `pid` own a socket in LISTEN state on 127.0.0.1:`port` (or 0.0.0.0:`port`)?
+fn child_listens(pid: i32, port: u16) -> bool {
+    let tcp = match std::fs::read_to_string("/proc/net/tcp") {
+        Ok(t) => t,
+        Err(_) => return std::net::TcpStream::connect(("127.0.0.1", port)).is_ok(),
+    };
+    let want = format!(":{:04X}", port);
+    let mut inodes: Vec<String> = vec![];
+    for line in tcp.lines().skip(1) {
+        let f: Vec<&str> = line.split_whitespace().collect();
+        if f.len() > 9 && f[1].ends_with(&want) && f[3] == "0A" {
+            inodes.push(format!("socket:[{}]", f[9]));
+        }
+    }
+    if inodes.is_empty() {
+        return false;
+    }
+    if let Ok(rd) = std::fs::read_dir(format!("/proc/{}/fd", pid)) {
+        for e in rd.flatten() {
+            if let Ok(t) = std::fs::read_link(e.path()) {
+                if inodes.iter().any(|i| t.to_string_lossy() == *i) {
+                    return true;
+                }
+            }
+        }
+    }
+    false
 }
 
 impl Pgcat {
@@ -298,14 +334,21 @@ impl Pgcat {
             }
             cmd.env(k, v);
         }
-        let child = cmd.spawn().map_err(|e| format!("spawn pgcat: {}", e))?;
+        // (std's spawn returns only after the child has exec'd, so the lock covers the whole fork..exec window)
+        let child = {
+            let _g = SPAWN_LOCK.lock().unwrap_or_else(|e| e.into_inner());
+            cmd.spawn().map_err(|e| format!("spawn pgcat: {}", e))?
+        };
         let mut p = Pgcat { child: Some(child), port, dir: dir.to_path_buf(), config_path, stderr_path };
         let deadline = Instant::now() + Duration::from_secs(10);
         loop {
             if let Some(st) = p.try_exit() {
                 return Err(format!("pgcat exited during startup: {:?}; stderr: {}", st, p.stderr_tail(2000)));
             }
-            if tokio::net::TcpStream::connect(("127.0.0.1", port)).await.is_ok() {
+            // "listening" = the LISTEN socket on our port belongs to *this* child. A bare connect() is not enough: under load
+            // it has been seen to succeed against a listener that was not the child's (the child was still parsing - or
+            // rejecting - its configuration), after which the first real client was reset or refused.
+            if child_listens(p.pid(), port) {
                 return Ok(p);
             }
             if Instant::now() > deadline {
